@@ -210,7 +210,7 @@ def known_match(kf, prop, failure):
     return all(re.search(p, text) for p in kf.get("match", []))
 
 
-def run_harness(binary, prop, tier, seed, log, extra_env=None):
+def run_harness(binary, prop, tier, seed, log, extra_env=None, timeout=None):
     os.makedirs(os.path.join(ROOT, "work"), exist_ok=True)
     outp = os.path.join(ROOT, "work", "%s-%s-%d.json" % (prop, tier, os.getpid()))
     env = dict(GOENV)
@@ -218,7 +218,8 @@ def run_harness(binary, prop, tier, seed, log, extra_env=None):
     if extra_env:
         env.update(extra_env)
     cmd = [binary, "-prop", prop, "-tier", tier, "-seed", str(seed), "-driver", DRIVER, "-out", outp]
-    timeout = 3600 if tier == "thorough" else 1500
+    if timeout is None:
+        timeout = 3600 if tier == "thorough" else 1500
     try:
         p = subprocess.run(cmd, cwd=HARN, env=env, stdout=subprocess.PIPE, stderr=subprocess.PIPE, text=True, timeout=timeout)
         rc, err = p.returncode, p.stderr
@@ -308,8 +309,9 @@ def main():
             failures.append({"stream": "oracle", "what": "DATA RACE reported by the Go race detector", "impl": r[:3000]})
         # step 4: a broken obligation or correspondence widens the search for a concrete failing input
         if res is not None and (broken or any(f.get("stream") == "correspondence" for f in failures)) and not any(f.get("stream") == "oracle" for f in failures):
-            for extra_seed, extra_tier in ((seed + 1000, tier), (seed + 2000, "thorough")):
-                rc2, res2, races2, _ = run_harness(binary, prop, extra_tier, extra_seed, log)
+            # (in the quick tier the deep round is bounded: a check that is run on every change must come back)
+            for extra_seed, extra_tier, limit in ((seed + 1000, tier, None), (seed + 2000, "thorough", 300 if tier == "quick" else None)):
+                rc2, res2, races2, _ = run_harness(binary, prop, extra_tier, extra_seed, log, timeout=limit)
                 if res2 is not None:
                     res["evaluations"] = res.get("evaluations", 0) + res2.get("evaluations", 0)
                     orc = [f for f in res2.get("failures", []) if f.get("stream") == "oracle"]
